@@ -28,7 +28,8 @@ RULE = ("names: all 258 dotted names of <= 3 segments over {im, sub, deep, _p, _
         "required/optional x **kwargs) x argument lists of length 0-4 and maps over {a,b,c,k,z} (quick: sampled), as function and "
         "as instance attribute; exceptions: 18 classes x 3 single-line texts x 4 call paths; malformed: truncations / deletions / "
         "substitutions of valid requests, structurally invalid objects, translator-rejected payloads; each single reply is also fed to "
-        "a ServerProxy. Non-trivial: the reply is an error. Distinct by case hash.")
+        "a ServerProxy. Non-trivial: the reply is an error. Distinct by case hash."
+        " Added after the seeded rounds: raw control characters inserted at every position of valid texts; methods raising SystemExit / KeyboardInterrupt / a BaseException subclass (registered functions and instance methods only); a `registry` stream of C01's histories judged on the -32601 clause (a name that was served and stops existing).")
 TRUSTED = ["modelled, not verified: CPython argument binding (call_binds), getattr on plain objects, traceback.format_exception, "
            "json.loads / class translator (model input = outcome of jsonrpclib.loads)",
            "loopback transport object standing for the network on the client side"]
